@@ -10,6 +10,7 @@ import (
 	clock "lunar/toolkit-core/clock"
 	context_manager "lunar/toolkit-core/context-manager"
 	"lunar/toolkit-core/otel"
+	"lunar/toolkit-core/verifhook"
 	"time"
 
 	lunar_metrics "lunar/engine/metrics"
@@ -187,6 +188,7 @@ func (p *queueProcessor) process() {
 
 func (p *queueProcessor) drainQueue() {
 	p.inDrainMode = true
+	verifhook.Event("queue.drain", p.name)
 	log.Debug().Msgf("Draining queue for processor %s", p.name)
 	p.requestsWatcher.StopAll()
 }
@@ -211,6 +213,7 @@ func (p *queueProcessor) tryProcessQueueItems() {
 			req.StopProcessing()
 			return
 		}
+		verifhook.Event("queue.granted", reqID)
 		req.SetProcessedSuccess()
 	}
 }
@@ -377,6 +380,7 @@ func (p *queueProcessor) enqueueIfSlotAvailable(req *Request) bool {
 
 	localSize := p.requestsWatcher.GetCount()
 	if localSize >= p.maxQueueSize {
+		verifhook.Event("queue.refused", req.GetID())
 		// If the local queue is full, we drop the request
 		p.logger.Debug().Str("requestID", req.GetID()).
 			Int64("LocalQueueCurrentSize", localSize).
@@ -402,6 +406,7 @@ func (p *queueProcessor) enqueueIfSlotAvailable(req *Request) bool {
 		return false
 	}
 
+	verifhook.Event("queue.enqueued", req.GetID())
 	return true
 }
 
